@@ -944,6 +944,12 @@ def compare_tree(im, model, hosts_content, filetype):
         if not io.is_dir():
             return v(kind, "wrong-type", "%r (inode %d) is not a directory: mode %o" % (path, ino, io.mode)), inos, shapes, maxent
         shapes[oid] = L.dir_shape(im, io)
+        if io.links != d.nlink and getattr(d, "overflowed", False) and d.nlink == 1 and \
+                io.links == d.nsub + 2 and io.links <= L.LINK_MAX:
+            # a repairing e2fsck may put the real count back once it fits again (pass 4 keeps a
+            # pinned 1 only under -n); the model follows
+            d.nlink = io.links
+            d.overflowed = False
         if io.links != d.nlink:
             viol = viol or v(kind, "wrong-nlink", "directory %r (inode %d) has link count %d, model %d (%d subdirectories)"
                              % (path, ino, io.links, d.nlink, d.nsub))
